@@ -124,7 +124,11 @@ def apply (f : Func) : ApiOp → Option Func
     | none => none
   | .emptyBlockAlt idx =>
     match f.body[idx]? with
-    | some _ => some { f with body := modifyAt f.body idx (fun i => { i with blockAlt := some [] }), hasSpecial := true }
+    | some x =>
+      -- like the other block modes: only on block-structured opcodes
+      if x.kind.isBlockStyle then
+        some { f with body := modifyAt f.body idx (fun i => { i with blockAlt := some [] }), hasSpecial := true }
+      else none
     | none => none
 
 def applyAll (f : Func) : List ApiOp → Option Func
